@@ -14,9 +14,17 @@ OnRT(e) ==
         v3 == Add(v2, e.raised \/ e.same_pflow, "SamePowerFlow:" \o e.fmt)
         v4 == Add(v3, e.raised \/ e.same_init, "SameInitialisation:" \o e.fmt)
     IN [s EXCEPT !.viol = v4]
+(* a third-party file (PSS/E raw, MATPOWER) read by the library and solved: the reported voltages balance the network that an      *)
+(* independent reader takes from the same file; a legal file never makes the reader raise                                          *)
+OnSrc(e) ==
+    LET v0 == Add(s.viol, ~e.raised, "SourceFileNeverRaises:" \o e.fmt)
+        v1 == Add(v0, e.raised \/ ~e.converged \/ e.balanced, "ParsedDataAgreeWithSourceFile:" \o e.fmt)
+        d0 == Add(s.drift, e.raised \/ e.converged, "source_file_variant_did_not_converge")
+        d1 == Add(d0, e.raised \/ e.decided, "source_file_has_elements_the_independent_reader_does_not_model")
+    IN [s EXCEPT !.viol = v1, !.drift = d1]
 Consume ==
     /\ l <= Len(Ev(tid))
-    /\ s' = OnRT(Ev(tid)[l])
+    /\ s' = IF Ev(tid)[l].e = "src" THEN OnSrc(Ev(tid)[l]) ELSE OnRT(Ev(tid)[l])
     /\ l' = l + 1 /\ UNCHANGED tid
     /\ (l = Len(Ev(tid))) => PrintT(ToJson([tid |-> Traces[tid].meta.tid, viol |-> s'.viol, drift |-> s'.drift, n |-> Len(Ev(tid))]))
 Spec == Init /\ [][Consume]_vars
